@@ -77,6 +77,7 @@ type Cfg struct {
 	decoy            bool     // this World is the second instance created next to another one
 	PreserveFields   []string // Modules.RegisterPreserveFields
 	CustomHasher     bool     // Config.Core.Hasher is the application's own salted-SHA hasher (own error values), not the shipped bcrypt one
+	FoldPIDs         bool     // the storer looks identifiers up case-insensitively (a *_ci collation, citext)
 	PersistArbitrary bool     // the user type stores every key PutArbitrary hands it (only sensible with an explicit RegWhitelist)
 }
 
@@ -269,6 +270,7 @@ func New(cfg Cfg, salt string) (w *World, err error) {
 	w.Store.OneTime = cfg.OneTimeTOTP
 	w.Store.ProfileKeys = cfg.ProfileKeys
 	w.Store.PersistAll = cfg.PersistArbitrary
+	w.Store.FoldPIDs = cfg.FoldPIDs
 	if cfg.StoreTZ != 0 {
 		w.Store.TimeLoc = time.FixedZone("db", cfg.StoreTZ)
 	}
